@@ -52,6 +52,46 @@ var basesThorough = append(append([]base{}, basesQuick...),
 	base{name: "one", echoID: 0, ipid: 65535 - 3, isn: 1, tcpSeq: u32(0x7fffffff)},
 )
 
+// thoroughWindows: the fixed thorough list plus n seed-determined windows (any first TTL, widths 1..24 and a few wide).
+func thoroughWindows(seed int64, n int) []window {
+	r := rand.New(rand.NewSource(seed*7919 + 13))
+	out := append([]window(nil), windowsThorough...)
+	for i := 0; i < n; i++ {
+		width := 1 + r.Intn(24)
+		if r.Intn(8) == 0 {
+			width = 40 + r.Intn(120)
+		}
+		first := 1 + r.Intn(255)
+		last := first + width - 1
+		if last > 255 {
+			last = 255
+		}
+		out = append(out, window{first, last})
+	}
+	return out
+}
+
+// thoroughBases: the fixed thorough list plus n seed-determined bases (uniform values and values within 40 of a
+// 16/32-bit wrap).
+func thoroughBases(seed int64, n int) []base {
+	r := rand.New(rand.NewSource(seed*104729 + 71))
+	near := func(mod uint64) uint32 {
+		if r.Intn(2) == 0 {
+			return uint32(uint64(r.Uint32()) % mod)
+		}
+		return uint32((mod - uint64(r.Intn(40)) - 1) % mod)
+	}
+	out := append([]base(nil), basesThorough...)
+	for i := 0; i < n; i++ {
+		b := base{name: fmt.Sprintf("r%d", i), echoID: near(1 << 16), ipid: near(1 << 32), isn: near(1 << 32)}
+		if r.Intn(6) != 0 {
+			b.tcpSeq = u32(near(1 << 32))
+		}
+		out = append(out, b)
+	}
+	return out
+}
+
 func (b base) apply(v refmatch.Variant) {
 	switch v.Proto {
 	case "icmp":
@@ -358,7 +398,7 @@ func checkC02() fw.Check {
 			wins, bases := windowsThorough[:5], basesQuick
 			reps := 2
 			if tier == "thorough" {
-				wins, bases = windowsThorough, basesThorough
+				wins, bases = thoroughWindows(seed, 8), thoroughBases(seed, 4)
 				reps = 12
 			}
 			var cases []fw.Case
